@@ -252,8 +252,9 @@ def exec_ops(ops: List[Dict[str, Any]]) -> Dict[str, Any]:
                              "identity_only": [b[:2] for b in before] == [a[:2] for a in after]}
         now = {k: id(v) for k, v in ev.base_functions.items()}
         if now != base_snapshot:
-            changed = sorted(set(now.items()) ^ set(base_snapshot.items()))
-            rec["i1"] = sorted({k for k, _ in changed})[:8]
+            leaked = kit.host_leaks(ev.base_functions)
+            if leaked:
+                rec["i1"] = leaked[:8]
         rec["state"] = _state_fp(progs)
         records.append(rec)
     return {"records": records}
@@ -402,9 +403,9 @@ def execute(trace: Dict[str, Any], timeout: float = 60.0) -> Dict[str, Any]:
                                "runner": _runner_of(ops, i), "detail": rec["o2"],
                                "sig": {"oracle": "O2-bindings-modified", "op": kind}})
         if "i1" in rec:
-            violations.append({"oracle": "I1-base-functions-changed", "op_index": i, "op": kind,
+            violations.append({"oracle": "I1-host-function-in-base-functions", "op_index": i, "op": kind,
                                "runner": _runner_of(ops, i), "detail": rec["i1"],
-                               "sig": {"oracle": "I1-base-functions-changed", "op": kind}})
+                               "sig": {"oracle": "I1-host-function-in-base-functions", "op": kind}})
     # O3: repeated V with equal bindings on one program -> equal fingerprints
     seen: Dict[str, Tuple[int, Any]] = {}
     for i, (op, rec) in enumerate(zip(ops, hist)):
